@@ -151,6 +151,9 @@ var pmt14Shapes = []pmt14Shape{
 	{name: "two packets, second with adaptation field, split inside a descriptor", ptr: 1, pil: 0, streams: []pmt14Stream{{0x31, []int{100}}, {0x32, []int{70}}, {0x33, nil}}, afLens: []int{-1, 100}, pid: 0x30},
 	{name: "three packets with short payloads", ptr: 0, pil: 2, streams: []pmt14Stream{{0x41, []int{10}}, {0x42, []int{12}}, {0x43, []int{9}}}, afLens: []int{150, 160, 120}, pid: 0x40},
 	{name: "no streams", ptr: 0, pil: 4, streams: nil, afLens: []int{-1}, pid: 0x64},
+	// length fields above 255
+	{name: "two packets, a stream with ES_info_length 270 (255-byte descriptor)", ptr: 0, pil: 0, streams: []pmt14Stream{{0x51, []int{255, 11}}, {0x52, nil}}, afLens: []int{-1, -1}, pid: 0x50},
+	{name: "two packets, program_info_length 258", ptr: 0, pil: 258, streams: []pmt14Stream{{0x61, []int{3}}, {0x62, nil}}, afLens: []int{-1, -1}, pid: 0x60},
 }
 
 type pidCase struct {
